@@ -251,7 +251,7 @@ func levelModProps(fkey string) []string {
 	ps := metaProps(fkey)
 	switch {
 	case strings.Contains(fkey, "lintrans") || strings.Contains(fkey, "Automorphism"):
-		ps = append(ps, "C12", "C04")
+		ps = append(ps, "C12", "C04", "C11")
 	case strings.Contains(fkey, "polynomial"):
 		ps = append(ps, "C13")
 	case strings.HasPrefix(fkey, "core/rlwe"):
@@ -609,7 +609,7 @@ func init() {
 			}
 			return out
 		}})
-	lm := []string{"C03", "C04", "C12", "C13", "C14", "C16", "C05", "C06"}
+	lm := []string{"C03", "C04", "C11", "C12", "C13", "C14", "C16", "C05", "C06"}
 	core.Register(&core.Rule{Name: "LEVELMOD", Props: lm,
 		Doc: "in a function that works at a level, Ring.Modulus() is called on a ring cut with AtLevel (directly or through a local bound to one), never on the full ring of the parameters",
 		Run: func(c *core.Ctx) []ob {
